@@ -166,6 +166,21 @@ add("C07",
     "Not modelled: float rounding, use_linear_correction. That the model Jacobian df/dc is right is C02.",
     "Rocq/Coq proof over R on a translated model + translator + differential correspondence + finite-difference oracle")
 
+add("C01",
+    "Coq theorems, valid over ANY algebra of values (reals, IEEE doubles, symbolic terms): the forward pass - built from the 17 "
+    "per-operator rules TRANSLATED from operator_eval.py on every run - computes row by row the value of the expression the row "
+    "denotes (shared rows computed once, equal to the duplicated tree); evaluation returns one value per data row; "
+    "get_utilized_commands marks a set that contains the last command and is closed under operands; reduce_stack yields a stack "
+    "that denotes the SAME expression tree with as many rows as utilized commands; commands the result does not depend on never "
+    "influence it. Tie: translator (rules, node tables); the REAL numpy backend run on dtype=object arrays of symbolic values "
+    "must produce exactly the model's term; polynomial stacks on integer data; utilized/reduce as integer lists; oracle against "
+    "an independent recursive float evaluator (values, non-finite where undefined, (M,1) shape, NaN column when Python raises).",
+    "Trusted: Coq kernel; tr_opeval.py; the harness. 'To floating-point accuracy' and 'overflow gives non-finite' are NOT "
+    "theorems: numpy/libm elementwise semantics and IEEE rounding are outside the model; what is proved is that bingo's own glue "
+    "adds nothing to the operator-by-operator composition. The try/except path of AGraph.evaluate_equation_at (fix F9) and "
+    "_reshape_output's broadcasting are covered by the correspondence and oracle only. Axiom-free.",
+    "Rocq/Coq proof (generic algebra, induction over the stack) on a translated model + symbolic differential correspondence")
+
 NOT_APPLICABLE = []
 def main():
     props = [json.loads(l)["id"] for l in open(os.path.join(HERE, "properties.jsonl"))]
